@@ -1,6 +1,37 @@
 """C07 - integer text and byte encodings round-trip and match the reference digits."""
+import os
+import sys
 import core
 from core import hx, gen_int, gen_mag
+
+# coq/gen/IoTables.v (byte ranges of digit_from_ascii_byte, the 0b/0o/0x prefix table, MIN/MAX_RADIX, DigitCase
+# offsets, MAX_(D)WORD_DIGITS_NON_POW_2, constants of max_exp_in_word/dword, CHUNK_LENs, SWAR constants) is
+# regenerated from the Rust sources when this plug-in is imported, i.e. before the proof phase of every run
+# (tools/translate.py is shared and not ours to edit).  coq/theories/Int/IoTablesProof.v proves the hand-written
+# models equal to the tables.  Unparseable source is not an alarm: the previous copy stays (marked STALE), the
+# status goes into the evidence (extra_phase) and the correspondence run alone ties the models.
+sys.path.insert(0, os.path.join(core.ROOT, "tools"))
+try:
+    import translate_c07
+    IO_TABLES_STATUS = translate_c07.generate(core.REPO, os.path.join(core.COQ, "gen"))
+except Exception as _ex:  # the generator itself broke: same fallback as an unparseable source
+    IO_TABLES_STATUS = "unparsed generator-failed: %s" % str(_ex)[:200]
+
+
+def extra_phase(tier, seed, exes, oracle):
+    word = IO_TABLES_STATUS.split(" ", 1)[0]
+    return {
+        "evaluations": 0,
+        "hist": {"translator_c07:IoTables:" + word: 1},
+        "nontrivial": [],
+        "samples": [{"fragment": "coq/gen/IoTables.v (tools/translate_c07.py from integer/src/radix.rs, parse/mod.rs, math.rs, "
+                                 "fmt/non_power_two.rs, parse/non_power_two.rs, arch/generic/digits.rs)",
+                     "status": IO_TABLES_STATUS,
+                     "tied_by": "C07_tables_digit, C07_tables_prefix, C07_tables_consts, C07_digit_buffers_fit, C07_swar_chunk" if word == "ok"
+                                else "correspondence run only (source not parsed; previous copy marked STALE)"}],
+        "failures": [],
+    }
+
 
 ID = "C07"
 READY = True
@@ -176,6 +207,8 @@ def decorate(rng, ds, r):
 def parse_case(rng, tier, huge=False):
     r = rng.choice([2, 3, 4, 5, 7, 8, 9, 10, 10, 10, 11, 16, 16, 32, 35, 36, rng.range(2, 36)])
     nd = digit_count_classes(rng, r, tier, huge)
+    if huge and r & (r - 1) and rng.chance(1, 2):
+        nd = parse_dc_len(rng, r, tier)
     ds = gen_digits(rng, r, nd)
     body = decorate(rng, ds, r)
     sign = rng.choice(["", "", "+", "-", "-"])
@@ -254,6 +287,132 @@ def fmt_size_case(rng, tier, huge=False):
     kind = std[r] if r in std and rng.chance(1, 2) else "r%x" % r
     spec = rng.choice(["", "", "#"])
     return "fmt %s %s .%s 0 %s" % (ty, kind, spec, hx(v))
+
+
+# ------------------------------------------------------------------------------------------------
+# divide-and-conquer printer: values built from its own split structure (PreparedLarge::new)
+# ------------------------------------------------------------------------------------------------
+NP2 = [r for r in range(3, 37) if r & (r - 1)]
+_DC_POW = {}
+
+
+def dc_powers(r, k):
+    """[P_0 .. P_k], P_i = r^(16*digits_per_word*2^i): the radix powers the printer caches"""
+    ps = _DC_POW.setdefault(r, [(r ** dpw_of(r)) ** 16])
+    while len(ps) <= k:
+        ps.append(ps[-1] * ps[-1])
+    return ps[:k + 1]
+
+
+def wlen64(v):
+    return (v.bit_length() + 63) // 64
+
+
+def big_below(rng, n):
+    """uniform-ish value in [0, n) for arbitrarily large n"""
+    return rng.bits(n.bit_length() + 8) % n if n > 0 else 0
+
+
+def dc_near(rng, p):
+    """a value compared with the cached power p: equal, +-1, or - the case a word-count comparison
+    cannot tell apart - below p with exactly as many words as p (at every distance)"""
+    lo = 1 << (64 * (wlen64(p) - 1))
+    k = rng.below(10)
+    if k == 0:
+        return p
+    if k == 1:
+        return p + 1
+    if k == 2:
+        return p - 1
+    if k == 3:
+        return lo
+    if k == 4:
+        return lo + 1
+    if k == 5:
+        return (lo + p) // 2
+    if k == 6:
+        return lo - 1                       # one word shorter
+    if k == 7:
+        return p + big_below(rng, p)        # above, below 2p
+    return lo + big_below(rng, p - lo)      # same word count, below p
+
+
+def dc_rem(rng, ps, j):
+    """a remainder below ps[j] as write_big_chunk sees it: zero halves, exact lower powers, all r-1"""
+    p = ps[j]
+    k = rng.below(8)
+    if k == 0:
+        return 0
+    if k == 1:
+        return 1
+    if k == 2:
+        return p - 1
+    if k == 3 and j > 0:
+        i = rng.below(j)
+        return rng.choice([ps[i], ps[i] - 1, ps[i] + 1, big_below(rng, ps[i])])       # upper half (or more) zero
+    if k == 4 and j > 0:
+        return big_below(rng, ps[j - 1]) * ps[j - 1] + rng.choice([0, 1, ps[j - 1] - 1])  # lower half trivial
+    if k == 5:
+        return p - 1 - big_below(rng, 1 << rng.range(1, 64))
+    return big_below(rng, p)
+
+
+def dc_quot(rng, ps, j):
+    """the running quotient x of the division cascade when the powers ps[0..j] are still to be
+    tried: every relation of x to ps[j] (>=, <, same word count but smaller, shorter), recursively"""
+    if j < 0:
+        # what is left for the top chunk (PreparedMedium): 1 .. P_0 - 1
+        p0 = ps[0]
+        return max(1, rng.choice([1, 2, p0 - 1, 1 + big_below(rng, p0 - 1), (1 << (64 * rng.range(0, wlen64(p0) - 1))) - rng.below(2),
+                                  1 + big_below(rng, 1 << rng.range(1, p0.bit_length() - 1))]))
+    p = ps[j]
+    k = rng.below(6)
+    if k < 2:
+        x = dc_near(rng, p)
+        if x >= p * p:
+            x = p
+        return x
+    if k < 4:
+        # x >= p: divided; the quotient goes on down the cascade
+        return dc_quot(rng, ps, j - 1) * p + dc_rem(rng, ps, j)
+    return dc_quot(rng, ps, j - 1)
+
+
+def dc_value(rng, r, k):
+    """a magnitude whose largest cached power is ps[k] (k >= 0), or just below/at the next squaring"""
+    ps = dc_powers(r, k)
+    top = ps[k]
+    c = rng.below(12)
+    if c == 0:
+        return top * top - 1 - rng.below(2)            # just below the next squaring
+    if c == 1:
+        return top + rng.below(2)                      # the power itself
+    if c == 2:
+        return top * top + rng.below(2)                # the next power is cached: x = 1
+    return dc_quot(rng, ps, k - 1) * top + dc_rem(rng, ps, k)
+
+
+def fmt_dc_case(rng, tier, deep=False):
+    r = rng.choice(NP2 + [10, 10, 10, 3, 7, 36])
+    if deep:
+        k = rng.choice([3, 3, 4]) if tier == "quick" else rng.choice([3, 4, 4, 5, 6])
+    else:
+        k = rng.choice([0, 1, 1, 1, 2, 2, 2])
+    v = dc_value(rng, r, k)
+    if rng.chance(1, 3):
+        v = -v
+    kind = "disp" if r == 10 and rng.chance(1, 2) else "r%x" % r
+    return "fmt %s %s .%s 0 %s" % (rng.choice("ui"), kind, rng.choice(["", "", "#"]), hx(v))
+
+
+def parse_dc_len(rng, r, tier):
+    """text lengths at the parser's own split points: chunk_bytes * (2^i + 2^j) -1/0/+1, i.e. the high
+    part of a split sits at a lower split point itself"""
+    k = 256 * dpw_of(r)
+    i = rng.choice([0, 1, 1, 2]) if tier == "quick" else rng.choice([0, 1, 2, 3, 3])
+    n = k << i
+    hi = rng.choice([1, 2, dpw_of(r), dpw_of(r) + 1, k - 1, k, k + 1] + [(k << j) + e for j in range(i) for e in (-1, 0, 1)] + [n - 1, n])
+    return n + hi
 
 
 def fmt_flag_case(rng, tier):
@@ -346,8 +505,10 @@ def gen_cases(rng, tier, n):
         if rng.chance(1, 40) and nhuge < max_huge:
             huge = True
             nhuge += 1
-        if k < 28:
+        if k < 25:
             out.append(fmt_flag_case(rng, tier))
+        elif k < 29:
+            out.append(fmt_dc_case(rng, tier, huge))
         elif k < 46:
             out.append(fmt_size_case(rng, tier, huge))
         elif k < 68:
